@@ -26,6 +26,7 @@ RULE = ("exhaustive over 3 candidates x all subsets (<=3 elements) of the 6 NEB 
         "parseAssertions, trees for every alternative winner; non-trivial = tree has at least one internal node and at least one pruned leaf; "
         "distinct = distinct canonical input")
 EXHAUSTIVE = {"quick": False, "thorough": False}
+RULE += "; option stream (n/25 more log cases, own generator, OPTIONS_AUDIT.md): parseAssertions without contest_id / with contest_id= by keyword"
 
 
 def _corpus_log():
